@@ -82,7 +82,9 @@ class StabilizerStateChForm(qis.StabilizerState):
         return copy
 
     def _value_equality_values_(self) -> Any:
-        return (self.n, self.G, self.F, self.M, self.gamma, self.v, self.s, self.omega)
+        # Nested tuples instead of arrays: comparing tuples of arrays is ambiguous for more than one qubit.
+        arrays = (self.G, self.F, self.M, self.gamma, self.v, self.s)
+        return (self.n, *(tuple(np.asarray(a).reshape(-1).tolist()) for a in arrays), self.omega)
 
     def copy(self, deep_copy_buffers: bool = True) -> cirq.StabilizerStateChForm:
         copy = StabilizerStateChForm(self.n)
